@@ -20,13 +20,13 @@ import (
 var P = h.New("C13", "exploration",
 	"pattern/string pairs over the alphabet {a,b,*,\\,é(2 bytes)} (lengths 0..8, strings biased to contain '*' and '\\' opposite wildcards and escapes) plus random ASCII; exhaustive enumeration of all pairs up to a length bound. Oracle: tokenise (unescaped * = wildcard, \\c = literal c) + DP membership. Non-trivial = the pattern has a wildcard or an escape and the string contains '*' or '\\'. Distinct by (pattern, string).")
 
-func TestMain(m *testing.M) { os.Exit(P.Main(m)) }
+func TestMain(m *testing.M)   { os.Exit(P.Main(m)) }
 func TestReplay(t *testing.T) { P.Replay(t) }
 
 type Case struct {
-	Pat string  `json:"pat"`
-	Str string  `json:"str"`
-	Non *val.V  `json:"non_string,omitempty"` // when set, the data is this non-string value
+	Pat string `json:"pat"`
+	Str string `json:"str"`
+	Non *val.V `json:"non_string,omitempty"` // when set, the data is this non-string value
 }
 
 func like(c *h.Ctx, pat string, data ipld.Node) (constructed bool, matched bool) {
@@ -221,32 +221,37 @@ func TestGlobExhaustive(t *testing.T) {
 	rec(nil)
 	k, nshards := h.Shard()
 	nt, evals := 0, 0
-	for pi, pat := range all {
-		if pi%nshards != k {
-			continue
-		}
-		_, valid := pol.Glob(pat, "")
-		p, err := policy.Construct(policy.Like(".", pat))
-		if (err == nil) != valid {
-			prop.One(t, Case{Pat: pat})
-			return
-		}
-		if !valid {
-			continue
-		}
-		for _, s := range all {
-			want, _ := pol.Glob(pat, s)
-			got, _ := p.Match(basicnode.NewString(s))
-			evals++
-			if got != want {
-				prop.One(t, Case{Pat: pat, Str: s})
+	var cur Case
+	prop.Enumerate(t, &cur, func() {
+		for pi, pat := range all {
+			if pi%nshards != k {
+				continue
+			}
+			cur = Case{Pat: pat}
+			_, valid := pol.Glob(pat, "")
+			p, err := policy.Construct(policy.Like(".", pat))
+			if (err == nil) != valid {
+				prop.One(t, Case{Pat: pat})
 				return
 			}
-			if nontrivial(pat, s) {
-				nt++
+			if !valid {
+				continue
+			}
+			for _, s := range all {
+				cur.Str = s
+				want, _ := pol.Glob(pat, s)
+				got, _ := p.Match(basicnode.NewString(s))
+				evals++
+				if got != want {
+					prop.One(t, Case{Pat: pat, Str: s})
+					return
+				}
+				if nontrivial(pat, s) {
+					nt++
+				}
 			}
 		}
-	}
+	})
 	P.EvalN(evals)
 	P.AddDistinct(nt)
 	P.SetExtra("exhaustive_max_len", maxLen)
